@@ -101,6 +101,13 @@ func (t *T) Me() *T {
 }
 
 // callees that keep the slice their surplus arguments were packed into
+var hookF func(int) int
+var hookM func(int, ...int) int
+
+func fire(n int) int {
+	return hookF(n)*10 + hookM(n, 1)
+}
+
 func cnt(xs ...any) int {
 	return len(xs)*10 + len(fmt.Sprint(xs...))
 }
@@ -296,7 +303,9 @@ func c09GenCase(seed int64, idx int) packedCase {
 			as = append(as, core.Pick(rng, p.args))
 		}
 		if sig.variadic != nil {
-			switch rng.Intn(4) {
+			switch rng.Intn(5) {
+			case 4:
+				as = append(as, "nil...") // a spread nil is a nil slice of the parameter's type
 			case 0: // no surplus arguments
 			case 1:
 				as = append(as, "[]"+sig.variadic.name+"{"+sig.variadic.args[0]+"}...")
@@ -451,6 +460,10 @@ func c09GenCase(seed int64, idx int) packedCase {
 		// a spread slice is passed through unchanged: the callee's writes to its elements are the caller's
 		fmt.Fprintf(&sb, "\tys := []int{1, 2, 3, 4}\n\tfill(%d, ys...)\n\tshow(ys)\n\to.A = 3\n\tshow(o.Scale(ys...), ys)\n\tsc := o.Scale\n\tshow(sc(ys[1:3]...), ys)\n\trelay(ys[2:]...)\n\tshow(ys)\n\tfill(9, 1, 2)\n", rng.Intn(9))
 		fmt.Fprintf(&sb, "\th := &H{O: o}\n\tshow(h.O.MV(5, xs...), gT.MV(6, xs...))\n\tvar none []int\n\tshow(o.MV(7, none...))\n")
+	}
+	if rng.Chance(1, 4) {
+		// package variables of function type, reassigned between two runs of the one call site that calls through them
+		fmt.Fprintf(&sb, "\toa := &T{A: %d}\n\tob := &T{A: %d}\n\thookF, hookM = dbl, oa.MV\n\tf1 := fire(3)\n\thookF, hookM = neg, ob.MV\n\tf2 := fire(3)\n\thookF = dbl\n\tshow(f1, f2, fire(4))\n", rng.Intn(9), 10+rng.Intn(9))
 	}
 	if rng.Chance(1, 4) {
 		// one []any argument for a ...any parameter is one argument; spread, it is its elements
